@@ -113,6 +113,11 @@ def build_dataset(data):
          "rating": [r[2] / 4.0 for r in rows]}
     if data["tcol"] == "int":
         d["timestamp"] = np.array([r[3] for r in rows], dtype=np.int64)
+    elif data["tcol"] == "ts" and data.get("tunit", "ns") != "ns":
+        # stored as timestamp[s|ms|us]; the case carries nanoseconds (multiples of the unit)
+        q = {"s": 10**9, "ms": 10**6, "us": 10**3}[data["tunit"]]
+        assert all(r[3] % q == 0 for r in rows)
+        d["timestamp"] = np.array([r[3] // q for r in rows], dtype=np.int64).view(f"datetime64[{data['tunit']}]")
     elif data["tcol"] == "ts":
         d["timestamp"] = pd.to_datetime(np.array([r[3] for r in rows], dtype=np.int64), unit="ns")
     df = pd.DataFrame(d)
@@ -204,6 +209,12 @@ def mk_cut(c):
     q = Fraction(c["v"])
     if c["k"] == "num":
         return float(q) if (c.get("float") or q.denominator != 1) else int(q)
+    if c["k"] == "pts":
+        # a pandas Timestamp (what an element / quantile of a datetime column is): nanosecond resolution
+        ns = q * 10**9
+        assert ns.denominator == 1
+        t = pd.Timestamp(int(ns), unit="ns")
+        return t.as_unit(c["as"]) if c.get("as") else t
     us = q * 1_000_000
     assert us.denominator == 1
     d = dt.datetime(1970, 1, 1) + dt.timedelta(microseconds=int(us))
